@@ -11,3 +11,6 @@ impl LogIterator {
 }
 /// T11: the encoded size of a data entry depends only on the sizes of key and value and on whether there is a value
 pub uninterp spec fn enc_len(k: Bytes, v: Option<Bytes>) -> u64;
+
+/// LogStatistics::fragmentation is a pure function of the three counters (f64 arithmetic is outside Verus's subset: uninterpreted)
+pub uninterp spec fn spec_fragmentation(s: LogStatistics) -> f64;
